@@ -30,6 +30,34 @@ type c08Feature struct {
 	muts  []c08Mut
 }
 
+// ladder: a group of mutually recursive helpers with joins - a0 -> b0|c0 -> a1 -> ... -> aN -> a0. The group has 3N+1
+// functions and 2^N paths through it: a fingerprint computation that walks paths instead of functions does not end.
+func c08Ladder(n int) string {
+	var b strings.Builder
+	for i := 0; i < n; i++ {
+		fmt.Fprintf(&b, "def lad_a%d(x):\n    return lad_b%d(x) if x %% 2 else lad_c%d(x)\n", i, i, i)
+		fmt.Fprintf(&b, "def lad_b%d(x):\n    return lad_a%d(x) + 1\n", i, i+1)
+		fmt.Fprintf(&b, "def lad_c%d(x):\n    return lad_a%d(x) + 2\n", i, i+1)
+	}
+	fmt.Fprintf(&b, "def lad_a%d(x):\n    return 7 if x <= 0 else lad_a0(x - 2)\n", n)
+	return b.String()
+}
+
+// clique: k helpers each of which calls every other one (guarded so that execution ends)
+func c08Clique(k int) string {
+	var b strings.Builder
+	for i := 0; i < k; i++ {
+		fmt.Fprintf(&b, "def clq%d(x):\n    if x <= 0:\n        return %d\n    return ", i, i)
+		for j := 0; j < k; j++ {
+			if j != i {
+				fmt.Fprintf(&b, "clq%d(x - 1) + ", j)
+			}
+		}
+		b.WriteString("0\n")
+	}
+	return b.String()
+}
+
 func c08Features() []c08Feature {
 	big := func(n int) string { return fmt.Sprintf("list(range(%d))", n) }
 	return []c08Feature{
@@ -102,6 +130,10 @@ func c08Features() []c08Feature {
 				{"literal in the second of two same-named nested defs", "w * 5", "w * 9"}}},
 		{"three-lambdas-builtin", "def measure(xs):\n    a = lambda r: len(r)\n    b = lambda r: str(r)\n    c = lambda r: repr(r)\n    return [a(xs), b(xs), c(xs)]\n", "measure([1])",
 			[]c08Mut{{"builtin called by the first of three lambdas", "lambda r: len(r)", "lambda r: repr(r)"}, {"builtin called by the middle lambda", "lambda r: str(r)", "lambda r: len(r)"}}},
+		{"mutual-recursion-ladder", c08Ladder(40), "lad_a0(0)",
+			[]c08Mut{{"literal at the far end of a 40-rung ladder of mutually recursive helpers", "return 7 if x <= 0", "return 8 if x <= 0"}, {"literal in the middle of the ladder", "return lad_a21(x) + 2", "return lad_a21(x) + 3"}}},
+		{"mutual-recursion-clique", c08Clique(12), "clq0(1)",
+			[]c08Mut{{"literal in one of 12 helpers that all call each other", "        return 5\n", "        return 55\n"}}},
 		{"tuple-sizes", "TUP = ((), (1,), (1, 2), (1, 2, 3), (1, 2, 3, 4))\n", "TUP", []c08Mut{{"tuple element", "(1, 2, 3, 4))", "(1, 2, 3, 5))"}}},
 	}
 }
